@@ -1,4 +1,5 @@
 import EoNVerif.Props.C01
+import EoNVerif.Props.C02b
 /-!
 C02 — `Gillespie_SIS`.  The model is the same parametrised one (`P.sis = true`); the theorems of `Props/C01` are
 stated for both variants.  This file instantiates them for SIS and adds the SIS-specific facts: a recovering node
